@@ -338,6 +338,7 @@ def run(rep, tier):
     rule_frames(rep, idx)
     rule_stub(rep, idx)
     rule_outgoing(rep, idx)
+    rule_peephole_base_register(rep, idx)
     rule_arrays(rep, idx)
     # the spill/outgoing-actual discipline of C01 is also what keeps stores inside the frame
     c01.rule_frames(c01._Rename(rep, {'R5': 'R5', 'R8': 'R6'}), idx)
@@ -371,6 +372,64 @@ def optimise(idx, X, items):
     except ivinterp._Return:
         pass
     return out.fields['instrs'].items, list(I.ub)
+
+
+def rule_peephole_base_register(rep, idx, rid='R11'):
+    rep.rule(rid, 'the directive peephole pass keeps the base register of stack stores established: after OptimiseDirectives, on directive '
+             'streams with and without labels, every STAI k that stored through a freshly loaded stack pointer (LDBM 1) still has an LDBM 1 '
+             'in front of it with no label, branch or write to breg in between -- a label is a join point, what breg holds there is not '
+             'known (a stop or return after an if whose branch is not taken would store through a stale breg)', floor=3)
+    toks = idx.enum('hexasm::Token')
+    rtok = {v: k for k, v in toks.items()}
+    where = 'xcmp.hpp xcmp::OptimiseDirectives'
+
+    def mk(X, spec):
+        out = []
+        for it in spec:
+            if it[0] == 'label':
+                out.append(X.I.construct('hexasm::Label', [const(32, True, toks['IDENTIFIER']), ('str', it[1])]))
+            elif it[0] == 'br':
+                out.append(X.I.construct('hexasm::InstrLabel', [const(32, True, toks[it[1]]), ('str', it[2]), const(1, False, 1)]))
+            elif it[0] == 'opr':
+                out.append(X.I.construct('hexasm::InstrOp', [const(32, True, toks['OPR']), const(32, True, toks[it[1]])]))
+            else:
+                out.append(X.I.construct('hexasm::InstrImm', [const(32, True, toks[it[0]]), const(32, True, it[1])]))
+        return out
+    streams = {
+        'store; label; store': [('LDBM', 1), ('STAI', 3), ('label', 'lab7'), ('LDBM', 1), ('STAI', 2)],
+        'store; load constant; store (straight line)': [('LDAC', 1), ('LDBM', 1), ('STAI', 2), ('LDAC', 2), ('LDBM', 1), ('STAI', 3)],
+        'if-then shape: BRZ over a store; label; store': [('LDAM', 5), ('br', 'BRZ', 'lab1'), ('LDAC', 7), ('LDBM', 1), ('STAI', 4), ('label', 'lab1'), ('LDBM', 1), ('STAI', 2)],
+        'store; branch; label; store': [('LDBM', 1), ('STAI', 3), ('br', 'BR', 'lab2'), ('label', 'lab3'), ('LDBM', 1), ('STAI', 2), ('label', 'lab2')],
+    }
+    for name, spec in streams.items():
+        X = xmodel.XModel(idx, c01.CodeGenModel(idx).hooks)
+        try:
+            # every real stream ends with the return of the last procedure (OPR BRB): the pass looks ahead without a bounds test
+            res, ub = optimise(idx, X, mk(X, spec + [('opr', 'BRB')]))
+        except (Thrown, NeedSplit, AnalysisBroken) as e:
+            rep.undecided(rid, name, 'peephole pass not interpreted: %s' % e, where)
+            continue
+        bsp = False
+        bad = []
+        shown = []
+        for d in res:
+            tk = rtok.get(d.fields['token'].lo) if isinstance(d.fields.get('token'), IV) else '?'
+            shown.append(tk if d.cls != 'hexasm::Label' else 'label')
+            if d.cls == 'hexasm::Label':
+                bsp = False
+            elif d.cls == 'hexasm::InstrLabel':
+                bsp = False
+            elif tk == 'LDBM':
+                v = d.fields.get('immValue')
+                bsp = isinstance(v, IV) and v.concrete() and v.lo == 1
+            elif tk in ('LDBC', 'LDBI'):
+                bsp = False
+            elif tk == 'OPR' and rtok.get(getattr(d.fields.get('opcode'), 'lo', None)) in ('BRB', 'SVC'):
+                bsp = False
+            elif tk == 'STAI' and not bsp:
+                bad.append('STAI %s' % getattr(d.fields.get('immValue'), 'lo', '?'))
+        rep.add(rid, name, not bad, where, ('after the pass %s stores through a base register that was not (re)loaded since the last label: '
+                                            'stream %s' % (bad, shown)) if bad else 'stream after the pass: %s' % shown)
 
 
 def pipeline_streams(idx):
